@@ -103,6 +103,20 @@ OTHER_VERSION_LINES = {
 def cases(rng, tier, shard, nshards):
     nmax = NMAX_ALL[tier]
     while True:
+        if rng.random() < 0.05:
+            # the VN tag assigned through the header object of the Gfa
+            v = rng.choice(["gfa1", "gfa2"])
+            how = rng.choice(["explicit", "content", "queued-only", "empty"])
+            base = {"gfa1": ["S\tA\t*", "S\tB\tACGT"], "gfa2": ["S\tA\t10\t*", "S\tB\t4\tACGT"]}[v]
+            if how == "queued-only":
+                base = ["# c1", "H\taa:i:1"] + (["L\tA\t+\tB\t-\t*"] if v == "gfa1" else ["X\tcustom\tfield"])
+            elif how == "empty":
+                base = []
+            yield {"mode": "header-vn-api", "gfa_version": v, "how": how, "base": base,
+                   "value": rng.choice(["1.0", "2.0", "1.0", "2.0", "3.0", "gfa1", "1.1"]),
+                   "way": rng.choice(["attr", "set", "add"]), "vlevel": rng.choice([1, 1, 2, 3]), "kind": "header-api",
+                   "version": None, "dialect": "standard", "entry": "api", "lines": base}
+            continue
         if rng.random() < 0.08:
             # a line object of the other version handed to a Gfa whose version is known, through
             # add_line(Line) or the documented equivalent Line.connect(gfa)
@@ -237,9 +251,60 @@ def run_object(case, ctx):
     ctx.sample({"lines": case["lines"], "config": "%s, level %d, %s" % (case["way"], case["vlevel"], case["how"])})
 
 
+def run_header_vn(case, ctx):
+    from ..mon import obs as O
+    kw = {"vlevel": case["vlevel"]}
+    if case["how"] == "explicit":
+        kw["version"] = case["gfa_version"]
+    g = gfapy.Gfa(**kw)
+    for l in case["base"]:
+        if not call(ctx, "add_line(str)", g.add_line, l).ok:
+            return
+    known = g.version
+    value, way = case["value"], case["way"]
+    before = O.obs(g)
+
+    def assign():
+        if way == "attr":
+            g.header.VN = value
+        elif way == "set":
+            g.header.set("VN", value)
+        else:
+            g.header.add("VN", value)
+    rr = call(ctx, "header VN through the API (%s)" % way, assign)
+    ctx.count("header_vn_assignments")
+    ctx.add("kinds", "header-api/%s/%s/%s" % (case["how"], way, value))
+    ctx.nontriv([case["base"], value, way, case["vlevel"], case["how"]])
+    named = {"1.0": "gfa1", "2.0": "gfa2"}.get(value)
+    cfg = "%s Gfa (%s, level %d), header VN = %r through %s" % (known, case["how"], case["vlevel"], value, way)
+    if named is None or (known is not None and named != known):
+        if rr.ok:
+            ctx.violation("%s/header-api/%s" % ("unsupported-version-accepted" if named is None else "mixed-accepted", way),
+                          "%s: accepted; the Gfa now writes %r" % (cfg, str(g)))
+            return
+        if named is not None and rr.cls() != "VersionError" and rr.kind == "gfapy":
+            ctx.violation("conflict-wrong-class/%s/header-api/%s" % (rr.cls(), way), cfg)
+            return
+        if O.obs(g) != before:
+            ctx.violation("state-changed-by-refused-header-version/%s" % way, cfg, prop="C08")
+        return
+    if not rr.ok:
+        ctx.violation("single-version-refused/%s/%s/header-api" % (named, rr.cls()), "%s: %s" % (cfg, str(rr.exc)[:200]))
+        return
+    # the version is now given by the header: content of the other version is refused
+    other = {"gfa1": "S\tZ\t4\tACGT", "gfa2": "S\tZ\tACGT"}[named]
+    r2 = call(ctx, "add_line(str)", g.add_line, other)
+    if r2.ok:
+        ctx.violation("mixed-accepted/after-header-api/%s" % way, "%s; then %r was accepted: %r" % (cfg, other, str(g)))
+    elif r2.cls() != "VersionError" and r2.kind == "gfapy":
+        ctx.violation("conflict-wrong-class/%s/after-header-api" % r2.cls(), "%s; then %r" % (cfg, other))
+
+
 def run(case, ctx):
     if case.get("mode") == "incremental":
         return run_incremental(case, ctx)
+    if case.get("mode") == "header-vn-api":
+        return run_header_vn(case, ctx)
     if case.get("mode") == "object-of-other-version":
         return run_object(case, ctx)
     lines = case["lines"]
